@@ -752,27 +752,58 @@ func (t *Term) emitDef(sb *strings.Builder) {
 	case OpTrunc:
 		fmt.Fprintf(sb, "((_ extract %d 0) %s)", t.w-1, t.x.ref())
 	case OpTbl:
-		// nested ite over the index
+		// piecewise definition over index ranges: each piece is a constant or index+delta
 		n := len(t.tbl)
-		// group runs of equal values to keep it small
 		idx := t.x.ref()
 		iw := t.x.w
-		def := t.tbl[n-1]
-		cnt := 0
-		for i := 0; i < n-1; i++ {
-			if t.tbl[i] == def {
+		m := mask(t.w)
+		type run struct {
+			hi    int
+			konst bool
+			v     uint64
+		}
+		var runs []run
+		for b := 0; b < n; {
+			e := b
+			for e+1 < n && t.tbl[e+1] == t.tbl[b] {
+				e++
+			}
+			if e > b {
+				runs = append(runs, run{e, true, t.tbl[b]})
+				b = e + 1
 				continue
 			}
-			fmt.Fprintf(sb, "(ite (= %s %s) %s ", idx, constLit(iw, uint64(i)), constLit(t.w, t.tbl[i]))
-			cnt++
+			d := (t.tbl[b] - uint64(b)) & m
+			for e+1 < n && (t.tbl[e+1]-uint64(e+1))&m == d {
+				e++
+			}
+			if e > b {
+				runs = append(runs, run{e, false, d})
+			} else {
+				runs = append(runs, run{e, true, t.tbl[b]})
+			}
+			b = e + 1
 		}
-		// out of range indices give 0 in eval; make that explicit when the index can exceed the table
-		if uint64(n-1) < mask(iw) && def != 0 {
-			fmt.Fprintf(sb, "(ite (bvult %s %s) %s %s)", idx, constLit(iw, uint64(n)), constLit(t.w, def), constLit(t.w, 0))
-		} else {
-			sb.WriteString(constLit(t.w, def))
+		ext := idx
+		if t.w > iw {
+			ext = fmt.Sprintf("((_ zero_extend %d) %s)", t.w-iw, idx)
+		} else if t.w < iw {
+			ext = fmt.Sprintf("((_ extract %d 0) %s)", t.w-1, idx)
 		}
-		sb.WriteString(strings.Repeat(")", cnt))
+		for _, r := range runs {
+			var piece string
+			switch {
+			case r.konst:
+				piece = constLit(t.w, r.v)
+			case r.v == 0:
+				piece = ext
+			default:
+				piece = fmt.Sprintf("(bvadd %s %s)", ext, constLit(t.w, r.v))
+			}
+			fmt.Fprintf(sb, "(ite (bvule %s %s) %s ", idx, constLit(iw, uint64(r.hi)), piece)
+		}
+		sb.WriteString(constLit(t.w, 0))
+		sb.WriteString(strings.Repeat(")", len(runs)))
 	case OpIte:
 		fmt.Fprintf(sb, "(ite %s %s %s)", t.x.ref(), t.y.ref(), t.z.ref())
 	case OpNot, OpNeg, OpBNot:
